@@ -327,6 +327,19 @@ class AsyncMachine(Machine):
         for model in listify(model):
             self.add_model(model)
 
+    # `_transition_queue_dict` is keyed by `id(model)`; ids change when a machine is unpickled.
+    # Store the queues next to their models and re-key them afterwards (compare LockedMachine).
+    def __getstate__(self):
+        state = dict(self.__dict__)
+        if self.has_queue == 'model':
+            state['_transition_queue_dict'] = [(mod, self._transition_queue_dict[id(mod)]) for mod in self.models]
+        return state
+
+    def __setstate__(self, state):
+        self.__dict__.update(state)
+        if self.has_queue == 'model':
+            self._transition_queue_dict = {id(mod): queue for mod, queue in self._transition_queue_dict}
+
     def add_model(self, model, initial=None):
         super().add_model(model, initial)
         if self.has_queue == 'model':
